@@ -77,20 +77,23 @@ func (s *Service) CreatePin(ctx context.Context, ref boson.Address, traverse boo
 		return nil
 	}
 
+	// pinning is idempotent: an already pinned root must not raise the pin
+	// counters of its chunks a second time.
+	key := rootPinKey(ref)
+	switch err := s.rhStorage.Get(key, new(boson.Address)); {
+	case err == nil:
+		return nil
+	case !errors.Is(err, storage.ErrNotFound):
+		return fmt.Errorf("unable to pin %q: %w", ref, err)
+	}
+
 	if traverse {
 		if err := s.traverser.Traverse(ctx, ref, iterFn); err != nil {
 			return fmt.Errorf("traversal of %q failed: %w", ref, err)
 		}
 	}
 
-	key := rootPinKey(ref)
-	switch err := s.rhStorage.Get(key, new(boson.Address)); {
-	case errors.Is(err, storage.ErrNotFound):
-		return s.rhStorage.Put(key, ref)
-	case err != nil:
-		return fmt.Errorf("unable to pin %q: %w", ref, err)
-	}
-	return nil
+	return s.rhStorage.Put(key, ref)
 }
 
 // DeletePin implements Interface.DeletePin method.
